@@ -95,6 +95,8 @@ type Field struct {
 	Flatten         bool     `json:"flatten,omitempty"`
 	FlattenPrefix   *string  `json:"flatten_prefix,omitempty"`
 	Examples        []string `json:"examples,omitempty"`
+	// JSONName: an explicit json_name option (empty = protoc's lowerCamel default)
+	JSONName string `json:"json_name,omitempty"`
 	Rules           *Rules   `json:"rules,omitempty"`
 }
 
